@@ -1,6 +1,9 @@
 """C19 - three-way directory merge never silently loses or overrides an entry.
 
 Real code: dvc_data.hashfile.tree._diff / _merge / merge and the library dictdiffer (diff, patch).
+Gen:       translator unit "merge" (translator/mergeunit.py) regenerates coq/theories/Gen/Merge.v from the current
+           _diff / _merge / merge (statement by statement, fail-closed); Proofs/MergeGen.v proves the model equal
+           to it (theorem C19_model_is_generated) - the streams below double as translation validation.
 Model:     coq/theories/Model/Merge.v (dd_diff, dd_patch, diff_, merge_, merge_obj, merge3),
            coq/theories/Proofs/MergeDigest.v (merge_tree = merge_obj with the executable Tree.digest).
 
@@ -22,7 +25,7 @@ from lib import impl
 from lib.core import cN, cbytes, clist, copt, cpair, vB, vL, vN
 
 PROPERTY = "C19"
-GEN: list = []
+GEN: list = ["merge"]
 RULE = (
     "listings are assignments of ==-classes of (Meta, HashInfo) values (incl. a meta-only difference, a None meta, "
     "a None hash, a .dir entry) to a key universe of 1-5 keys drawn from nested / non-ASCII / empty-part / "
@@ -48,6 +51,9 @@ ASSUMPTIONS = [
     "keys are tuples of str (Tree keys); the empty tuple () cannot occur in a listing loaded from a store "
     "(relpath.split('/') is never empty) - with it _merge raises TypeError while formatting the conflict message "
     "(modelled: stream merge/raw-empty-key, theorem C19_total_err_empty_key_refuted; not judged by the oracle)",
+    "the control flow of _diff/_merge/merge is translated from the source (unit merge: fixed statement shapes, "
+    "fail-closed); the translator's reading of each shape (e.g. `if not V: return copy.deepcopy(D)` = list emptiness, "
+    "`except KeyError` = exactly KeyError among the modelled classes) is validated by the merge / sweep / tree streams",
     "dictdiffer.diff/patch are environment: modelled for flat dicts with tuple keys and validated here against "
     "the installed library (0.10.x) on every run",
     "merge(): listings are planted as directory objects; an md5 store loads only {md5, relpath} records "
